@@ -44,3 +44,33 @@ def spreading_is_serial(K, dim):
     import sys
     modsrc = inspect.getsource(sys.modules[MOD.format(d=dim)])
     K.ensures("module_never_requests_parallel_numba", "parallel=True" not in modsrc.replace(" ", "") and "prange" not in modsrc)
+
+
+@unit("communicator_kernels_uniform_in_marker_count", props=("C06", "C07", "C15"), configs=[dict(dim=2), dict(dim=3)], kernels=False,
+      assumes=("a closure whose code object is the same for every marker count N treats markers uniformly: its per-marker "
+               "contracts (proved for N = 1, 2 with symbolic positions) extend to any N by the marker-loop / broadcasting structure",))
+def communicator_kernels_uniform_in_marker_count(K, dim):
+    """the real generator functions return THE SAME code for every marker count (no dispatch on N:
+    no alternative kernels for 'many markers', no parallel variants), so what is proved for one and
+    two markers is what runs for thousands."""
+    import sys
+    mod = MOD.format(d=dim)
+    from svx.symnp import SymReal64
+    gens = {
+        "local_eulerian_grid_support_of_lagrangian_grid_kernel": dict(dx=0.1, eul_grid_coord_shift=0.05, interp_kernel_width=2),
+        "eulerian_to_lagrangian_grid_interpolation_kernel": dict(dx=0.1, interp_kernel_width=2),
+        "lagrangian_to_eulerian_grid_interpolation_kernel": dict(interp_kernel_width=2),
+    }
+    counts = (1, 2, 3, 17, 500, 501, 1024, 4097)
+    for gname, kw in gens.items():
+        for ncomp in ((None,) if gname.startswith("local") else (1, dim)):
+            codes = set()
+            for n in counts:
+                args = dict(kw, num_lag_nodes=n)
+                if ncomp is not None:
+                    args["n_components"] = ncomp
+                fn = K.repo(f"{mod}:generate_{gname}_{dim}d")(**args)
+                code = fn.__code__
+                codes.add((code.co_code, code.co_names, tuple(repr(c) for c in code.co_consts), code.co_varnames, fn.__name__))
+            K.ensures(f"{gname}[n_components={ncomp}]_is_the_same_code_for_every_marker_count", len(codes) == 1,
+                      note=f"marker counts {counts}")
